@@ -233,12 +233,14 @@ def stftEntry (j : Json) : Except String Json := do
       | .none => pure (.ok (some none))
       | .int _ => throw "ola is an int"
       | .obj tag =>
-        if tag = "overlap_add" then pure (.ok none) else do
-          let o ← objOf objs tag
-          let _ ← getStr (← field o "name")
-          match ← olaCallOf objs plan.olaParams with
-          | none => pure (.runErr "ola-kwarg")
-          | some c => pure (.ok (some (some c)))
+        -- the default strategy `overlap_add` (numpy) has the same signature as `overlap_add.list`
+        match ← olaCallOf objs plan.olaParams with
+        | none => pure (.runErr "ola-kwarg")
+        | some c =>
+          if tag = "overlap_add" then pure (.ok none) else do
+            let o ← objOf objs tag
+            let _ ← getStr (← field o "name")
+            pure (.ok (some (some c)))
     let .ok ola := olaR | stop "ola-kwarg" [("ola_kwargs", kwSpec)]
     -- … the numpy defaults are imported when the first block is asked for
     let unres (r : Res (Option (String × Rat))) : Bool × Option (String × Rat) :=
